@@ -1744,10 +1744,21 @@ func (b *builder) rangeIterMapOrString(fn *Function, x Value, tk, tv types.Type,
 		Iter:     it,
 		IsString: isString,
 	}
+	// The WebAssembly back end materialises every component of the tuple: for a map give the
+	// unwanted components their real types instead of the invalid type.
+	tupk, tupv := tk, tv
+	if mt, ok := x.Type().Underlying().(*types.Map); ok {
+		if tupk == tInvalid {
+			tupk = mt.Key()
+		}
+		if tupv == tInvalid {
+			tupv = mt.Elem()
+		}
+	}
 	okv.setType(types.NewTuple(
 		varOk,
-		newVar("k", tk),
-		newVar("v", tv),
+		newVar("k", tupk),
+		newVar("v", tupv),
 	))
 	fn.emit(okv)
 
